@@ -69,6 +69,24 @@ theorem C15_queues (k : Kind) (hl : k.locked = false) (hq : k.qmodel = true) (ρ
   · intro x hx
     exact alookup_of_list_none _ ρ x M.models hx
 
+/-- **separate queue cells**: distinct models get distinct entries (the keys of the rebuilt table are
+pairwise distinct when the models are), and writing the entry of one model leaves the entry of every
+other model untouched.  (`asyncSetstate` gives each model its own queue; the model's `step` never
+leaves anything in a queue, so sharing one queue object between models — which only shows under
+re-entrant triggers — is excluded here at table level and judged behaviourally by the harness.) -/
+theorem C15_queues_separate (k : Kind) (hl : k.locked = false) (hq : k.qmodel = true) (ρ : Nat → Nat) (hρ : Inj ρ)
+    (M : PM) (hnd : M.models.Nodup) :
+    ((roundtrip k ρ M).qdict.map (·.1)).Nodup ∧
+    ∀ m ∈ M.models, ∀ m' ∈ M.models, m' ≠ m → ∀ v,
+      alookup (ρ m') (aset (ρ m) v (roundtrip k ρ M).qdict) = some (lookupD m' M.qdict) := by
+  refine ⟨?_, ?_⟩
+  · rw [(C15_queues k hl hq ρ hρ M).1]
+    exact List.Pairwise.map ρ (fun a b hab e => hab (hρ a b e)) hnd
+  · intro m _ m' hm' hne v
+    have : ρ m' ≠ ρ m := fun e => hne (hρ _ _ e)
+    rw [alookup_aset_ne' _ _ _ this]
+    exact (C15_queues k hl hq ρ hρ M).2.1 m' hm'
+
 /-- **regeneration, graph classes**: exactly one fresh graph per model, under the new id, in
 registration order, showing the model's current state as active (`s + 1`); no stale key. -/
 theorem C15_graphs (k : Kind) (hg : k.graph = true) (ρ : Nat → Nat) (hρ : Inj ρ) (M : PM) :
